@@ -106,7 +106,10 @@ func writeReplay(w *World, r *Result, path, prop string) bool {
 			// try the model of the modular VC first; states behind a loop cut
 			// are not function inputs, so fall back to bounded unrolling
 			if src := in.testSource(); src != "" {
-				if _, ok := runOverlayTest(src, in.watchdog); !ok {
+				if out, ok := runOverlayTest(src, in.watchdog); !ok {
+					if os.Getenv("MQVC_DEBUG") != "" {
+						fmt.Fprintf(os.Stderr, "first replay attempt failed:\n%s\n%s\n", src, out)
+					}
 					in = nil
 				}
 			}
@@ -227,6 +230,9 @@ func extractInput(w *World, vc *VC, ob *Obligation, cond string, kind string) *r
 	if kind == "ensures" && ob.Fn == root {
 		if n, err := parseSpec(ob.Desc); err == nil {
 			c := &goCtx{recv: in.recvName}
+			if ct := w.contracts[root]; ct != nil {
+				c.lets = ct.Lets
+			}
 			for _, p := range fn.Params[1:] {
 				if isSliceT(p.Type()) && typeStr(elemOf(p.Type())) == "uint8" {
 					c.dataParam = p.Name()
@@ -249,32 +255,31 @@ func extractInput(w *World, vc *VC, ob *Obligation, cond string, kind string) *r
 	}
 	u8 := "H_uint8_0"
 	const maxBytes = 48
-	if dataLen == "" {
-		// methods without a byte-slice parameter: String(), WellFormed(), dump(w), WriteTo(w)
-		np := len(fn.Params) - 1
-		in.callArgs = ""
-		var argTerms []struct{ term, typ string }
-		for _, p := range fn.Params[1:] {
-			switch {
-			case isIfaceT(p.Type()):
-				argTerms = append(argTerms, struct{ term, typ string }{"", "io.Discard"})
-			case isStringT(p.Type()) || isSliceT(p.Type()) && typeStr(elemOf(p.Type())) == "uint8":
-				argTerms = append(argTerms, struct{ term, typ string }{findDecl(vc, "f1_p_"+p.Name(), 1), "bytes:" + types.TypeString(p.Type(), func(*types.Package) string { return "" })})
-			default:
-				l, ok := numLeaf(p.Type())
-				if !ok && len(flatten(p.Type())) == 1 && flatten(p.Type())[0].Kind == lkBool {
-					l, ok = flatten(p.Type())[0], true
-				}
-				if !ok {
-					return nil
-				}
-				t := findDecl(vc, "f1_p_"+p.Name(), 0)
-				vc.termSorts[t] = l.Sort
-				argTerms = append(argTerms, struct{ term, typ string }{t, "num:" + types.TypeString(p.Type(), func(*types.Package) string { return "" })})
+	// arguments other than the first byte slice: scalars and lengths from the model
+	var argTerms []struct{ term, typ string }
+	for _, p := range fn.Params[1:] {
+		switch {
+		case p.Name() == in.dataName && in.dataName != "":
+			argTerms = append(argTerms, struct{ term, typ string }{"", "@data"})
+		case isIfaceT(p.Type()):
+			argTerms = append(argTerms, struct{ term, typ string }{"", "io.Discard"})
+		case isStringT(p.Type()) || isSliceT(p.Type()) && typeStr(elemOf(p.Type())) == "uint8":
+			argTerms = append(argTerms, struct{ term, typ string }{findDecl(vc, "f1_p_"+p.Name(), 1), "bytes:" + types.TypeString(p.Type(), func(*types.Package) string { return "" })})
+		default:
+			l, ok := numLeaf(p.Type())
+			if !ok && len(flatten(p.Type())) == 1 && flatten(p.Type())[0].Kind == lkBool {
+				l, ok = flatten(p.Type())[0], true
 			}
+			if !ok {
+				return nil
+			}
+			t := findDecl(vc, "f1_p_"+p.Name(), 0)
+			vc.termSorts[t] = l.Sort
+			argTerms = append(argTerms, struct{ term, typ string }{t, "num:" + types.TypeString(p.Type(), func(*types.Package) string { return "" })})
 		}
-		_ = np
-		in.argTerms = argTerms
+	}
+	in.argTerms = argTerms
+	if dataLen == "" {
 		dataLen = "0"
 		terms = append(terms, "0")
 		for k := 0; k < maxBytes; k++ {
@@ -282,7 +287,6 @@ func extractInput(w *World, vc *VC, ob *Obligation, cond string, kind string) *r
 		}
 	} else {
 		in.hasData = true
-		in.callArgs = "data"
 		terms = append(terms, dataLen)
 		for k := 0; k < maxBytes; k++ {
 			terms = append(terms, fmt.Sprintf("(select %s (+ %s %d))", u8, dataBase, k))
@@ -394,6 +398,9 @@ func extractInput(w *World, vc *VC, ob *Obligation, cond string, kind string) *r
 		for i, at := range in.argTerms {
 			pn := in.paramNames[i]
 			switch {
+			case at.typ == "@data":
+				names = append(names, in.dataName)
+				continue
 			case at.term == "":
 				names = append(names, at.typ)
 				continue
@@ -432,6 +439,13 @@ func extractInput(w *World, vc *VC, ob *Obligation, cond string, kind string) *r
 	for _, f := range sliceTerms {
 		if n, ok := smtInt(vals[f.term]); ok && n > 0 && n < 1<<20 {
 			in.fields[f.name] = fmt.Sprintf("make(%s, %d)", f.typ, n)
+			if strings.HasSuffix(f.typ, "UserProperties") {
+				// element contents are not part of the model: use small non-empty pairs
+				if n > 2 {
+					n = 2
+				}
+				in.fields[f.name] = "UserProperties{" + strings.Repeat(`{"k", "v"}, `, int(n)) + "}"
+			}
 		}
 	}
 	for _, f := range ptrTerms {
@@ -504,9 +518,6 @@ func (in *replayInput) testSource() string {
 	}
 	b.WriteString("\tdefer func() {\n\t\tif e := recover(); e != nil {\n\t\t\tfmt.Println(\"REPLAY-PANIC:\", e)\n\t\t}\n\t}()\n")
 	args := in.callArgs
-	if in.hasData {
-		args = dn
-	}
 	switch in.nres {
 	case 0:
 		fmt.Fprintf(&b, "\t%s.%s(%s)\n", rn, in.method, args)
@@ -585,6 +596,9 @@ func searchReplay(w *World, r *Result, seed *replayInput) string {
 	if r.Ob.Kind == "ensures" && r.Ob.Fn == root {
 		if n, err := parseSpec(r.Ob.Desc); err == nil {
 			c := &goCtx{recv: rn, dataParam: dn}
+			if ct := w.contracts[root]; ct != nil {
+				c.lets = ct.Lets
+			}
 			s := c.expr(n)
 			if c.bad == "" {
 				post, postSrc = s, r.Ob.Desc
